@@ -5,6 +5,8 @@ import (
 	"flag"
 	"fmt"
 	"go/constant"
+	"go/types"
+	"reflect"
 	"os"
 	"path/filepath"
 	"regexp"
@@ -456,6 +458,26 @@ func (e *Engine) structural(d *Decl) (bool, string) {
 			}
 		}
 		return false, "no initialisation of " + gname + " found"
+	}
+	if kind == "yaml-tags" {
+		// (structural yaml-tags "pkg.T" "Field:key Field2:key2 ..."): the struct's yaml tags are exactly these
+		t := e.typeByName(d.SX.List[2].Atom)
+		if t == nil {
+			return false, "no such type"
+		}
+		st, ok := t.Underlying().(*types.Struct)
+		if !ok {
+			return false, "not a struct"
+		}
+		var got []string
+		for i := 0; i < st.NumFields(); i++ {
+			tag := reflect.StructTag(st.Tag(i)).Get("yaml")
+			got = append(got, st.Field(i).Name()+":"+tag)
+		}
+		if strings.Join(got, " ") != d.SX.List[3].Atom {
+			return false, fmt.Sprintf("fields/tags are %q, contracts assume %q", strings.Join(got, " "), d.SX.List[3].Atom)
+		}
+		return true, ""
 	}
 	return false, "unknown structural check " + kind
 }
